@@ -478,6 +478,8 @@ def run(ctx):
     # =================================================================================================
     # ---- the SOURCE-REGENERATED code (translator, string subset): see gen_stream below ----------------
     gen_stream(ctx, pu, cases)
+    # ======== "sitecov" input stream - self-contained, implemented at the end of this file ========
+    _sitecov_tail(ctx)
 
 
 # Generated-code stream: Gen.vb_scale (lean/Plotink/Gen/vb_scale.lean, regenerated from plot_utils.py on every run - the
@@ -505,7 +507,7 @@ def gen_stream(ctx, pu, cases):
            and all(isinstance(t, (int, float)) and not isinstance(t, bool) and math.isfinite(t) for t in (c['W'], c['H']))]
     cap = ctx.n(12000)
     if len(sel) > cap:
-        sel = sel[:500] + ctx.rng.sample(sel[500:], cap - 500)
+        sel = sel[:500] + ctx.rng.sample(sel[500:], max(0, min(len(sel) - 500, cap - 500))) if len(sel) > 500 else sel[:max(cap, 0)]
     outs = ctx.driver.batch([f"gen vb_scale 15 {sarg(c['vb'])} {sarg(c['par'])} {pyval(c['W'])} {pyval(c['H'])}" for c in sel])
     n = bad = skipped = 0
     for c, g in zip(sel, outs):
@@ -533,3 +535,89 @@ def gen_stream(ctx, pu, cases):
                          {'gen': True, 'v_b': c['vb'], 'p_a_r': c['par'], 'doc_width': repr(c['W']), 'doc_height': repr(c['H'])}, want, g)
     ctx.notes.append(f'generated-code stream: Gen.vb_scale (Rounding.ieee) on {n} cases, identical numbers required ({bad} differ); '
                      f'{skipped} with non-finite / out-of-range numbers not compared; {time.time() - t0:.1f}s')
+
+
+# ================================================================================================
+# "sitecov" input stream (harness/sitecov.py, DESIGN 3c): every comparison of the CURRENT source of vb_scale is driven to
+# lhs == rhs and to either side by moves on the four viewBox numbers (re-rendered into the attribute string with repr,
+# so the text denotes exactly the double that is searched) and on the page width / height; alignment and meetOrSlice of
+# the seed are kept.  The inputs found go through run() itself (real code, Lean model, SVG oracle from the generator's
+# own knowledge of the case - valid call, or identity for a non-positive viewBox / page size) and are additionally
+# counted under the path 'sitecov'.
+# Self-contained block at the end of the file on purpose (the body of `run` is untouched except for its last line).
+# ================================================================================================
+_SC_LO, _SC_HI = 1e-6, 1e12      # magnitudes of the module's own magnitude stream (the tolerance was measured there)
+
+
+def _sitecov_domain(a):
+    x, y, w, h, align, mos, W, H = a
+    if not all(type(v) in (int, float) and math.isfinite(v) for v in (x, y, w, h, W, H)):
+        return False
+    if abs(x) > _SC_HI or abs(y) > _SC_HI:
+        return False
+    return all(v <= 0 and v >= -_SC_HI or _SC_LO <= v <= _SC_HI for v in (w, h, W, H))
+
+
+def _sitecov_apply(tw, a):
+    x, y, w, h, align, mos, W, H = a
+    return tw(' '.join(repr(float(v)) for v in (x, y, w, h)), align + (' ' + mos if mos else ''), W, H)
+
+
+def _sitecov_case(a):
+    x, y, w, h, align, mos, W, H = a
+    vb = ' '.join(repr(float(v)) for v in (x, y, w, h))
+    par = align + (' ' + mos if mos else '')
+    if w <= 0 or h <= 0:
+        return dict(kind='I', why='vb<=0', vb=vb, par=par, W=W, H=H)
+    if W <= 0 or H <= 0:
+        return dict(kind='I', why='doc<=0', vb=vb, par=par, W=W, H=H)
+    nums = tuple(Fraction(float(v)) for v in (x, y, w, h))
+    return vcase(nums, align, mos, vb, par, W, H, False)
+
+
+def _sitecov_rerun(ctx, cases):
+    from . import sitecov
+    box = {'cases': list(cases)}
+
+    def seq(rng, n, tag):
+        out, box['cases'] = box['cases'], []
+        return out
+    sitecov.rerun_patched(ctx, globals(), over={'scale': 0}, patches={'sequences': seq, 'magnitude_cases': lambda rng, n: []})
+
+
+def _sitecov_plain_boxes(rng, n_exact, n_dec):
+    """(x, y, w, h, W, H, exact) WITHOUT aspect-ratio structure (no equal / constructed ratios, no powers of two)"""
+    out = []
+    for _ in range(n_exact + n_dec):
+        g = lambda: Fraction(rng.randint(1, 20000), 10 ** rng.randint(0, 3))      # noqa: E731
+        out.append((Fraction(rng.randint(-5000, 5000), 10), Fraction(rng.randint(-5000, 5000), 10), g(), g(), g(), g(), False))
+    return out
+
+
+def _sitecov_tail(ctx):
+    if getattr(ctx, '_in_sitecov', False) or getattr(ctx, '_only_main', False) or getattr(ctx, 'replay', None) \
+            or os.environ.get('SITECOV_OFF'):
+        return
+    from . import sitecov
+    from plotink import plot_utils as pu
+    rng = ctx.rng
+    gen = _sitecov_plain_boxes if os.environ.get('SITECOV_ONLY') else boxes
+    seeds = []
+    for i in range(120):
+        x, y, w, h, W, H, exact = gen(rng, 1, 1)[i % 2]
+        seeds.append((float(x), float(y), float(w), float(h), rng.choice(ALIGNS), rng.choice(['meet', 'slice', None]),
+                      page_arg(rng, W, exact), page_arg(rng, H, exact)))
+    kinds = {0: 'float', 1: 'float', 2: 'float', 3: 'float', 4: 'fixed', 5: 'fixed', 6: 'num', 7: 'num'}
+    sitecov.stream(ctx, 'vb_scale', pu.vb_scale, seeds, rerun=lambda cs: _sitecov_rerun(ctx, cs), apply=_sitecov_apply,
+                   to_case=_sitecov_case, moves=sitecov.Moves(kinds=kinds, domain=_sitecov_domain), budget=3000, max_inputs=250)
+
+
+if os.environ.get('SITECOV_ONLY'):
+    # EXPERIMENT ONLY (measures what the sitecov stream finds on its own): call sequences, magnitude / near-tie cases
+    # and the constructed wider / equal / taller boxes are disabled; the corpus and the identity stream (which contains
+    # hand-written non-positive sizes) are read / written inline by run() and stay
+    from . import sitecov as _sc
+    _sc.only_mode(globals(), tail=_sitecov_tail,
+                  patches={'sequences': lambda rng, n, tag: [], 'magnitude_cases': lambda rng, n: [], 'boxes': _sitecov_plain_boxes},
+                  note='call sequences, magnitude / near-tie cases and the constructed wider / equal / taller boxes are disabled '
+                       '(corpus and the inline identity stream stay); inputs = unbiased random boxes + the sitecov stream')
